@@ -490,7 +490,7 @@ fn check(c: &(G, u8), st: &mut Stats) -> CheckResult {
 fn run(cfg: &Cfg) -> Report {
     let mut rep = Report::new(
         cfg,
-        "proptest inputs of six kinds: token soup over a 190-token vocabulary (numbers incl. extreme ones, units, all operator spellings, brackets, keywords, library functions, type syntax), 1-3 token mutations (delete, duplicate, swap, replace by an extreme value or a vocabulary token) of 1-5 consecutive lines of the example and module corpus read from /repo, 40 templates with extreme values substituted (huge exponents, factorial chains, overflowing integers, NaN/inf, format specifiers), corrupted generated programs, bounded nesting/operator runs, and random bytes; each in a fresh, a prelude, or a prelude-plus-definitions session. Oracle: interpretation returns (result or error); on error every diagnostic renders through codespan term::emit; no panic (debug assertions and overflow checks are on in this build); the session accepts a further input; an input without `fn` that stays within the harness's VM step budget uses less than 20 s of CPU time. Panics are keyed by file + message (not line). non-trivial = >= 4 tokens and the input reached the type checker or ran; distinct = input text",
+        "proptest inputs of eight kinds: calls of every public prelude function (list read from the session, random-number functions excepted) with arguments drawn from typed pools of edge values (non-ASCII strings, 0/NaN/inf, huge, tiny and negative numbers, quantities, empty/nested/mixed lists, function names, extreme dates; one argument in eight ignores the declared type), 1-4 characters from an alphabet read from numbat's tokenizer and parser sources plus the whole Unicode super/subscript block appended to 14 stems, token soup over a 190-token vocabulary (numbers incl. extreme ones, units, all operator spellings, brackets, keywords, library functions, type syntax), 1-3 token mutations (delete, duplicate, swap, replace by an extreme value or a vocabulary token) of 1-5 consecutive lines of the example and module corpus read from /repo, 40 templates with extreme values substituted (huge exponents, factorial chains, overflowing integers, NaN/inf, format specifiers), corrupted generated programs, bounded nesting/operator runs, and random bytes; each in a fresh, a prelude, or a prelude-plus-definitions session; plus the complete enumeration of every one- and two-character continuation (same alphabet) after an operand. Oracle: interpretation returns (result or error); on error every diagnostic renders through codespan term::emit; no panic (debug assertions and overflow checks are on in this build); the session accepts a further input; an input without `fn` that stays within the harness's VM step budget uses less than 20 s of CPU time. Panics are keyed by file + message (not line). non-trivial = >= 4 tokens and the input reached the type checker or ran; distinct = input text",
     );
     let cases = cfg.tier.pick(1500u32, 100000u32);
     rep.absorb(run_proptest(
@@ -538,6 +538,7 @@ fn run(cfg: &Cfg) -> Report {
         dict.extend(a.iter().filter(|c| !c.is_ascii()).map(|c| c.to_string()));
         dict.extend(EXTREME_VALUES.iter().map(|s| s.to_string()));
         rep.absorb(run_libfuzzer(cfg, "interp", 400_000, 300, &seeds, &dict, fuzz_bytes));
+        rep.rule.push_str("; thorough tier: followed by a coverage-guided libFuzzer campaign over raw bytes (16 jobs x 400,000 executions, inputs <= 300 bytes, corpus seeded with ~300 lines of the example/module corpus, dictionary = vocabulary + non-ASCII alphabet + extreme values) with the same oracle inside the fuzz target; its executions are included in evaluations (class libfuzzer:interp:executions), not in distinct_nontrivial");
     }
     rep.extra("alphabet_size", json!(a.len()));
     rep.extra("corpus_lines", json!(corpus().len()));
